@@ -1,5 +1,6 @@
 SPECIFICATION Spec
 CONSTANTS MaxNodes = 4
+ RootTfs = {1, 2}
   ShapeKinds = {"path", "rrect", "polygon"}
   TfCount = 4
 INVARIANT StackEqualsRecursive
